@@ -1227,8 +1227,10 @@ func matchCryptoMap(al, bl []*cmd, f func([]*cmd, []*cmd)) {
 	}
 	mapPeerToSeq := func(seqMap map[int][]*cmd) map[string]int {
 		m := make(map[string]int)
-		for seq, l := range seqMap {
-			m[getPeer(l)] = seq
+		// Use fixed order to get deterministic result,
+		// if multiple entries have same peer.
+		for _, seq := range slices.Sorted(maps.Keys(seqMap)) {
+			m[getPeer(seqMap[seq])] = seq
 		}
 		return m
 	}
